@@ -1,15 +1,15 @@
 (** C04 - parsing preserves CEL precedence, associativity and grouping.
     Proved here: the round trip [parse (render tree) = tree] for every surface tree -
-    identifiers, integer literals of either sign, true / false / null, string and bytes
-    literal tokens, prefix runs of any length,
+    identifiers, integer and double literals of either sign, true / false / null, string and
+    bytes literal tokens, prefix runs of any length,
     * / %, + -, the seven relations, && / || chains of any length, ?:, explicit parentheses,
     field selection, indexing, member and global calls (of names that are not macros), list and
     map literals - rendered with minimal parentheses: at token level with the fuel [compile]
     itself uses (the parse holds for all sufficient fuel, more fuel never changes an answer,
     and the parser's own fuel is never exhausted), and from source text; the operand order of
     && / || chains; the cancellation of prefix runs; that macros expand around their receiver
-    and arguments.  Outside the round-trip theorem: double literals (C13), message literals and
-    the optional-field syntax the parser refuses; the correspondence run covers those (every tree with up to 2 (thorough: 3)
+    and arguments.  Outside the round-trip theorem: message literals and the optional-field
+    syntax the parser refuses; the correspondence run covers those (every tree with up to 2 (thorough: 3)
     operators, random deeper ones, fully and minimally parenthesised) and checks on every tree
     of the theorem's domain that the real lexer's tokens are the rendering [raw]. *)
 From Coq Require Import String Ascii.
